@@ -1,12 +1,12 @@
 from pyvc import runner
-from contracts import signing, hashdata, sigalgs, subpacket_values, packets
+from contracts import signing, hashdata, sigalgs, subpacket_values, packets, subpackets
 
 PID = 'C02'
 PENDING_TRIAGE = False
 
 
 def items():
-    return signing.scenarios() + [s for s in subpacket_values.scenarios() + packets.scenarios() if PID in s.props] + [s for s in hashdata.scenarios() + sigalgs.scenarios() if PID in s.props]
+    return signing.scenarios() + [s for s in subpacket_values.scenarios() + packets.scenarios() + subpackets.scenarios() if PID in getattr(s, 'props', ())] + [s for s in hashdata.scenarios() + sigalgs.scenarios() if PID in s.props]
 
 
 def run(tier='quick', seed=0, only=None):
